@@ -398,7 +398,7 @@ func (self *BinaryConv) handleUnsets(b *thrift.RequiresBitmap, desc *thrift.Stru
 	return b.HandleRequires(desc, self.opts.WriteRequireField, self.opts.WriteDefaultField, self.opts.WriteOptionalField, func(field *thrift.FieldDescriptor) error {
 		// check if field has http mapping
 		var ok = false
-		if hms := field.HTTPMappings(); self.opts.EnableHttpMapping && hms != nil {
+		if hms := field.HTTPMappings(); resp != nil && self.opts.EnableHttpMapping && hms != nil {
 			// make a default thrift value
 			p := thrift.BinaryProtocol{Buf: make([]byte, 0, conv.DefaulHttpValueBufferSizeForJSON)}
 			if err := p.WriteDefaultOrEmpty(field); err != nil {
